@@ -222,6 +222,15 @@ class SymmetryTranslator:
             visible_vars: set[AST] = set(global_vars)
             for lit in lits:
                 visible_vars.update(collect_ast(lit, "Variable"))
+            # the compared variables may also not occur at the other (equal) positions of the joined literals
+            for index in index_subset:
+                unequal_positions = set(potential_strict_inequalities[index]) | set(
+                    potential_nstrict_inequalities[index]
+                )
+                for pred in potential_equalities[index]:
+                    for pos, arg in enumerate(pred.atom.symbol.arguments):
+                        if pos not in unequal_positions:
+                            visible_vars.update(collect_ast(arg, "Variable"))
             if len(visible_vars & used_variables) == 0:
                 # built ccs, in a cc, only one comparison can be improved
                 g = nx.Graph()
